@@ -71,11 +71,12 @@ def build(rep, core, nlead, eff, s):
         return Built(f, (a, b, W), [], (0, 1, 2))
 
     if rep == "pure_nontensor":
+        # non-tensor and NON-DIFFERENTIABLE tensor parameters (integer / bool dtype, float without grad) interleaved with the tensors
         def f(*args):
-            lead, (pa, ps, none, pb, flag, pW) = lead_rest(args)
-            assert none is None and flag == "flag"
-            return core(*lead, pa, pb, pW, ps)
-        return Built(f, (a, s, None, b, "flag", W), [], (0, 3, 5))
+            lead, (pidx, pa, ps, none, pb, flag, pmask, pW, pconst) = lead_rest(args)
+            assert none is None and flag == "flag" and pidx.dtype == torch.int64 and pmask.dtype == torch.bool
+            return core(*lead, pa, pb, pW, ps) + 0.0 * pconst.sum()
+        return Built(f, (torch.arange(3), a, s, None, b, "flag", torch.tensor([True, False]), W, torch.ones(2, dtype=a.dtype)), [], (1, 4, 7))
 
     if rep == "pure_dup":
         # one tensor object supplied in two parameter slots
@@ -395,6 +396,8 @@ def _run_rootfinder(method, more=None):
         opts = dict(f_tol=1e-11, x_tol=1e-11, maxiter=200) if method != "default" else {}
         opts.update(more or {})
         kw = {} if method == "default" else {"method": method}
+        if extra and extra.get("bck_options"):
+            kw["bck_options"] = extra["bck_options"]
         return rootfinder(built.fcn, y0, params=built.params, **kw, **opts)
     return run
 
@@ -403,7 +406,8 @@ def _run_equilibrium(method, more=None):
     def run(built, d, dtype, extra):
         from xitorch.optimize import equilibrium
         y0 = torch.zeros(d, dtype=dtype)
-        return equilibrium(built.fcn, y0, params=built.params, method=method, f_tol=1e-11, x_tol=1e-11, maxiter=300, **(more or {}))
+        kw = {"bck_options": extra["bck_options"]} if extra and extra.get("bck_options") else {}
+        return equilibrium(built.fcn, y0, params=built.params, method=method, f_tol=1e-11, x_tol=1e-11, maxiter=300, **(more or {}), **kw)
     return run
 
 
@@ -411,10 +415,11 @@ def _run_minimize(method):
     def run(built, d, dtype, extra):
         from xitorch.optimize import minimize
         y0 = torch.zeros(d, dtype=dtype)
+        bkw = {"bck_options": extra["bck_options"]} if extra and extra.get("bck_options") else {}
         if method == "gd":
             return minimize(built.fcn, y0, params=built.params, method="gd", step=0.2, gamma=0.5, maxiter=2000, f_rtol=0.0,
-                            x_rtol=0.0, f_tol=0.0, x_tol=1e-12)
-        return minimize(built.fcn, y0, params=built.params, method=method, f_tol=1e-11, x_tol=1e-11, maxiter=200)
+                            x_rtol=0.0, f_tol=0.0, x_tol=1e-12, **bkw)
+        return minimize(built.fcn, y0, params=built.params, method=method, f_tol=1e-11, x_tol=1e-11, maxiter=200, **bkw)
     return run
 
 
@@ -474,7 +479,7 @@ def _run_opsolve(which, method):
         y = (torch.randn(d, generator=tg, dtype=dtype) * 0.3).requires_grad_()
         B = torch.randn(d, 2, generator=tg, dtype=dtype)
         A = (jac if which == "jac" else hess)(built.fcn, (y, *built.params), idxs=0)
-        return solve(A, B, method=method, rtol=1e-11, atol=1e-13)
+        return solve(A, B, method=method, rtol=1e-11, atol=1e-13, bck_options={"rtol": 1e-11, "atol": 1e-30})
     return run
 
 
